@@ -34,3 +34,19 @@ Example C12_example :
   count fold121 [97; 97; 97; 97] [65; 65] = 2 /\
   cut fold121 [120; 226;132;170; 121] [75] = ((0, 1), (4, 5), true).
 Proof. vm_compute. auto. Qed.
+
+(* ---- the code's own loops (structure-faithful model Impl3.v, both package
+   shapes), with the callee Index replaced by its specification (C01), compute
+   exactly these Spec functions on all byte strings.  Count's single-ASCII-byte
+   kernel path is excluded here (it is C10/C13 material). ---- *)
+From Strcase Require Import Impl Impl3 Instances.
+
+Theorem C12_count_refines : forall p s sub, wf s -> wf sub -> (forall c, sub = [c] -> 128 <= c) ->
+  Count idx_spec p s sub = Ok (count fold121 s sub).
+Proof. exact count_refines_general121. Qed.
+Print Assumptions C12_count_refines.
+
+Theorem C12_cut_refines : forall p s sep, wf s -> wf sep ->
+  Cut idx_spec p s sep = Ok (cut fold121 s sep).
+Proof. exact cut_refines121. Qed.
+Print Assumptions C12_cut_refines.
